@@ -62,6 +62,10 @@ fn get_file_paths(root_dir: &Utf8Path) -> Result<BTreeSet<PathBuf>, anyhow::Erro
     let default_include = vec![
         "src/**".to_string(),
         "Cargo.toml".to_string(),
+        // Rust sources can live outside `src/`: `[lib] path = "lib.rs"`, `#[path = "../shared/x.rs"]`
+        // modules, `build.rs`. They are compiled into the crate all the same.
+        "**/*.rs".to_string(),
+        "!target/**".to_string(),
         // A few other files would be included (e.g. README),
         // but we don't care about them for the purpose of generating
         // the JSON docs of the crate.
@@ -80,7 +84,11 @@ fn get_file_paths(root_dir: &Utf8Path) -> Result<BTreeSet<PathBuf>, anyhow::Erro
         .chain(exclude_patterns.into_iter().map(|p| format!("!{p}")))
         .collect();
 
-    let glob_walker = globwalk::GlobWalkerBuilder::from_patterns(&root_dir, &patterns).build()?;
+    let glob_walker = globwalk::GlobWalkerBuilder::from_patterns(&root_dir, &patterns)
+        // Source files can be symbolic links (e.g. code shared between crates):
+        // what they point to is compiled into the crate.
+        .follow_links(true)
+        .build()?;
 
     let included_files: BTreeSet<PathBuf> = glob_walker
         .into_iter()
